@@ -513,6 +513,14 @@ let model_case (toks : string list) : string =
                          @ [Printf.sprintf "t%d.trace=%s" i (nlist_str trace)])) ths)
        ^ Printf.sprintf " flag=%s index=%s" (b01 flag) (nlist_dot index)
      | [] -> failwith "sched R")
+  | "sched" :: "H" :: rest ->
+    (* hashing is a function of the constructor data (C14): whatever the interleaving, every call
+       returns the value a single thread computes *)
+    let (_, r1) = parse_src rest in
+    let (progs, _) = parse_progs r1 (fun s -> s) in
+    S.concat " " (L.mapi (fun i prog ->
+        S.concat " " (Printf.sprintf "t%d.n=%d" i (L.length prog)
+                      :: L.mapi (fun j _ -> Printf.sprintf "t%d.r%d=1" i j) prog)) progs)
   | "sched" :: (("C" | "L") as k) :: rest ->
     let (inner, r1) = parse_src rest in
     let (progs, r2) = parse_progs r1 cop_of in
@@ -625,6 +633,14 @@ let check_case (prop : string) (toks : string list) (kvs : (string * string) lis
        verdict (ApiSched.chk_C18_replace inner rs (n_of_string presort) results
                   (get kvs "flag" = "1", nlist_of_dot (get kvs "index")))
      | [] -> failwith "sched R")
+  | "sched" :: "H" :: rest ->
+    let (_, r1) = parse_src rest in
+    let (progs, _) = parse_progs r1 (fun s -> s) in
+    if has_panic kvs || L.mem_assoc "PANIC" kvs then "FAIL clause=panic" else
+    let ok = L.for_all (fun x -> x) (L.mapi (fun i prog ->
+        (match L.assoc_opt (Printf.sprintf "t%d.n" i) kvs with Some n -> int_of_string n = L.length prog | None -> false)
+        && L.for_all (fun x -> x) (L.mapi (fun j _ -> L.assoc_opt (Printf.sprintf "t%d.r%d" i j) kvs = Some "1") prog)) progs) in
+    if ok then "OK" else "FAIL clause=1"
   | "sched" :: ("C" | "L") :: rest ->
     let (inner, r1) = parse_src rest in
     let (progs, _) = parse_progs r1 cop_of in
